@@ -1,4 +1,17 @@
 From CV Require Export Num.MeterModel.
-(* (op, a, b, amount metered by the real estimator) *)
+(* (op, a, b, amount metered by the real estimator): operands given in full (at most 4 words each) *)
 Definition check_meter (c : mop * Z * Z * Z) : bool :=
   let '(o, a, b, obs) := c in metered o a b =? obs.
+
+Definition osumm_eqb (x y : osumm) : bool :=
+  (s_wa x =? s_wa y) && (s_wb x =? s_wb y) && Bool.eqb (s_a_ge0 x) (s_a_ge0 y) && Bool.eqb (s_a_le0 x) (s_a_le0 y)
+  && Bool.eqb (s_b_ge0 x) (s_b_ge0 y) && Bool.eqb (s_b_le0 x) (s_b_le0 y) && Bool.eqb (s_lt x) (s_lt y)
+  && (s_blb x =? s_blb y) && Bool.eqb (s_b_zero x) (s_b_zero y) && (s_shift x =? s_shift y).
+
+(* (op, a, b, summary computed by math/big): validates the Go-side summary against Coq's words/bitlen *)
+Definition check_summ (c : Z * Z * osumm) : bool :=
+  let '(a, b, s) := c in osumm_eqb (summ a b) s.
+
+(* (op, summary computed by math/big, amount metered by the real estimator) *)
+Definition check_meter_s (c : mop * osumm * Z) : bool :=
+  let '(o, s, obs) := c in metered_s o s =? obs.
